@@ -307,6 +307,34 @@ func checkC08(w *Worker) {
 		x.Case(fmt.Sprint(sizeDims[dim], n, n2, ci), true)
 		runOne(x, map[string]string{"food.yaml": book.String(), "log.yaml": lg.String()}, c08Cmds[ci], "sizes")
 	})
+	// ---- the program as a whole (main included): every command shape x a handful of inputs on the real binary, one
+	// process per run - exit status 0 with a report or non-zero with the error message, nothing in between
+	binInputs := []map[string]string{
+		{"food.yaml": goodBook, "log.yaml": goodLog},
+		{"food.yaml": goodBook, "log.yaml": "2021/01/24:\n  r1: q\n"},
+		{"food.yaml": "r1:\n  cal:2\n", "log.yaml": goodLog},
+		{"food.yaml": "c0:\n  c1: 1\nc1:\n  c0: 1\n", "log.yaml": "2021/01/24:\n  c0: 1\n"},
+		{"food.yaml": goodBook, "log.yaml": "notadate:\n  r1: 1\n"},
+		{"food.yaml": "\xff\xfe\x00", "log.yaml": "\x00\x01\x02:\n  \xff: 1\n"},
+		{"food.yaml": "", "log.yaml": ""},
+	}
+	w.Explore("real-binary-x-commands", ExploreOpts{ShardDepth: 2, NoAudit: true}, func(x *Exec) {
+		ci := x.Choose(len(c08Cmds), "input:command")
+		ii := x.Choose(len(binInputs), "input:input")
+		cmd := c08Cmds[ci]
+		args := append(append([]string{"--no-color"}, cmd.Global...), cmd.Args...)
+		c := appCase{Args: args, Files: binInputs[ii]}
+		name := strings.Join(append(append([]string{}, cmd.Global...), cmd.Args...), " ")
+		x.Journal("C08|"+name, "`"+c.shell()+"`")
+		r := runApp(c)
+		x.Case(fmt.Sprint("bin", ci, ii), true)
+		x.Obs(fmt.Sprint(r.Failed), firstLine(r.Panic))
+		if r.Panic != "" {
+			x.Violate("C08|"+name+"|panic", fmt.Sprintf("`%s` panics: %s", c.shell(), r.Panic), map[string]interface{}{"cmd": c.shell(), "files": c.Files, "args": args})
+			return
+		}
+		x.w.binMustAgree(x, c, r, "C08|"+name)
+	})
 	// ---- cycles of every length <= 4 and deep chains against every depth limit, incl. an absurd one
 	depths := []string{"1", "2", "3", "10", "100000", "2000000000"}
 	w.Explore("cycles-and-depth-limits", ExploreOpts{ShardDepth: 3, NoAudit: true}, func(x *Exec) {
